@@ -35,7 +35,7 @@ CHECKS = {
  "C10": ("random sequences of calls from an explicit catalogue of 75 read-only operations on generated Gfa states; deep fingerprint before/after each call and repeatability of results",
          "6-C10", "After every call of a random sequence of read-only operations a deep fingerprint of the Gfa (texts, field values, ordered back-reference lists, name lists) must be unchanged and the repeated call must return an equal result."),
  "C13": ("exhaustive enumeration of short sequences of line kinds x version parameter x vlevel against a version-inference table + generated mixed documents in random orders",
-         "6-C13", "All sequences of up to 3 (quick) / 4 (thorough) lines over 15 line kinds x version parameter x vlevel are enumerated (exhaustive: true for that part), incrementally and through Gfa(list); at vlevel 0, 1, 2, also with identical repeated lines; the inferred version / VersionError verdict must match the model table for every order and every queued line must appear exactly once."),
+         "6-C13", "All sequences of up to 3 (quick) / 4 (thorough) lines over 16 line kinds x version parameter x vlevel are enumerated (exhaustive: true for that part), incrementally and through Gfa(list); at vlevel 0, 1, 2, also with identical repeated lines; the inferred version / VersionError verdict must match the model table for every order and every queued line must appear exactly once."),
  "C18": ("differential across validation levels on generated valid and mutated documents; assignment programs with grammar-judged values checked for when the error surfaces",
          "6-C18", "The same document is loaded at vlevel 0-3 (same graph, same text, monotone acceptance); assignment programs with values the independent grammar accepts or rejects check that an invalid value raises at the assignment at level 3, at write time at level >= 2 and in validate_field at every level, and that valid values are never rejected; the same for header.add() programs and for programs that edit a line and its clones side by side."),
  "C14": ("planted-structure graph generation; chains, spelled sequences and re-attached links recomputed by an independent model; search over bijections for fresh names",
